@@ -35,7 +35,8 @@ func (its *CheckPoint) SyncCseq(cseq uint64) *CheckPoint {
 
 // Clone makes a carbon copy of this one.
 func (its *CheckPoint) Clone() *CheckPoint {
-	return NewCheckPoint().Set(its.Sseq, its.Cseq)
+	// through the getters: a pack may carry no checkpoint at all
+	return NewCheckPoint().Set(its.GetSseq(), its.GetCseq())
 }
 
 // Compare returns true if this CheckPoint is equal to other; otherwise, false.
